@@ -14,31 +14,92 @@ from typing import List, Tuple
 REQUIRED = {"str", "bytes", "bytearray", "int", "float", "complex", "Enum"}
 
 
-def sites(prog, modules=("vector", "table")) -> List[Tuple[str, int, frozenset, bool]]:
-    """(function, line, exempted names, complete?) for every Iterable-test that has an exemption tuple on the same operand"""
+def _tuple_names(prog, module, node, depth=0):
+    """The class names of an isinstance() type tuple: a tuple display, a module-level constant that is one, a concatenation of
+    such (`_ONE_VALUE_TYPES + (Mapping,)`); None if it cannot be told."""
+    if depth > 6:
+        return None
+    if isinstance(node, ast.Tuple):
+        out = set()
+        for e in node.elts:
+            if isinstance(e, ast.Name):
+                sub = _tuple_names(prog, module, e, depth + 1) if _is_const_tuple(prog, module, e.id) else {e.id}
+                if sub is None:
+                    return None
+                out |= sub
+            elif isinstance(e, ast.Starred):
+                sub = _tuple_names(prog, module, e.value, depth + 1)
+                if sub is None:
+                    return None
+                out |= sub
+        return out
+    if isinstance(node, ast.Name):
+        from .core import module_binding
+        b = module_binding(prog, module, node.id)
+        if b is not None and b[0] == "constant" and isinstance(b[1], (ast.Tuple, ast.BinOp)):
+            return _tuple_names(prog, module, b[1], depth + 1)
+        return None
+    if isinstance(node, ast.BinOp) and isinstance(node.op, ast.Add):
+        a, b = _tuple_names(prog, module, node.left, depth + 1), _tuple_names(prog, module, node.right, depth + 1)
+        return None if a is None or b is None else a | b
+    return None
+
+
+def _is_const_tuple(prog, module, name) -> bool:
+    from .core import module_binding
+    b = module_binding(prog, module, name)
+    return b is not None and b[0] == "constant" and isinstance(b[1], (ast.Tuple, ast.BinOp))
+
+
+def _own_sites(prog, f):
+    """(line, operand text, exempted names, the Iterable test is negated?) of every test in f itself"""
     out = []
+    for n in ast.walk(f.node):
+        if not isinstance(n, ast.BoolOp):
+            continue
+        it_ops, ex = [], []
+        for v in n.values:
+            neg = isinstance(v, ast.UnaryOp) and isinstance(v.op, ast.Not)
+            c = v.operand if neg else v
+            if isinstance(c, ast.Call) and isinstance(c.func, ast.Name) and c.func.id in ("isinstance", "b_isinstance") and len(c.args) == 2:
+                who = ast.unparse(c.args[0])
+                if isinstance(c.args[1], ast.Name) and c.args[1].id == "Iterable":
+                    it_ops.append((who, neg))
+                else:
+                    names = _tuple_names(prog, f.module, c.args[1])
+                    if names is not None:
+                        ex.append((who, neg, frozenset(names)))
+        for who, neg in it_ops:
+            for who2, neg2, names in ex:
+                # `Iterable and not exempt` (sequence branch) or `not Iterable or exempt` (scalar branch)
+                if who2 == who and neg2 != neg and {"str", "bytes"} <= names:
+                    out.append((n.lineno, who, names, neg))
+    return out
+
+
+def sites(prog, modules=("vector", "table")) -> List[Tuple[str, int, frozenset, bool]]:
+    """(function, line, exempted names, complete?) for every Iterable-test that has an exemption tuple on the same operand.  A test
+    kept in a small predicate helper (`_is_cell_sequence(obj)`: the tested operand is the helper's parameter) is ALSO reported at
+    every call of the helper, under the calling function."""
+    out = []
+    helpers = {}
     for q, f in sorted(prog.functions.items()):
         if f.module not in modules or isinstance(f.node, ast.Lambda):
             continue
-        for n in ast.walk(f.node):
-            if not isinstance(n, ast.BoolOp):
+        for ln, who, names, _neg in _own_sites(prog, f):
+            out.append((q, ln, names, REQUIRED <= names))
+            if who in f.params and f.parent is None:
+                helpers.setdefault(f.name, []).append(names)
+    if helpers:
+        for q, f in sorted(prog.functions.items()):
+            if f.module not in modules or isinstance(f.node, ast.Lambda):
                 continue
-            it_ops, ex = [], []
-            for v in n.values:
-                neg = isinstance(v, ast.UnaryOp) and isinstance(v.op, ast.Not)
-                c = v.operand if neg else v
-                if isinstance(c, ast.Call) and isinstance(c.func, ast.Name) and c.func.id in ("isinstance", "b_isinstance") and len(c.args) == 2:
-                    who = ast.unparse(c.args[0])
-                    if isinstance(c.args[1], ast.Name) and c.args[1].id == "Iterable":
-                        it_ops.append((who, neg))
-                    elif isinstance(c.args[1], ast.Tuple):
-                        names = frozenset(e.id for e in c.args[1].elts if isinstance(e, ast.Name))
-                        ex.append((who, neg, names))
-            for who, neg in it_ops:
-                for who2, neg2, names in ex:
-                    # `Iterable and not exempt` (sequence branch) or `not Iterable or exempt` (scalar branch)
-                    if who2 == who and neg2 != neg and {"str", "bytes"} <= names:
-                        out.append((q, n.lineno, names, REQUIRED <= names))
+            for n in ast.walk(f.node):
+                if isinstance(n, ast.Call):
+                    nm = n.func.id if isinstance(n.func, ast.Name) else n.func.attr if isinstance(n.func, ast.Attribute) else None
+                    if nm in helpers and nm != f.name:
+                        for names in helpers[nm]:
+                            out.append((q, n.lineno, names, REQUIRED <= names))
     seen = set()
     res = []
     for s in out:
